@@ -1072,7 +1072,11 @@ fn gen_settings(rng: &mut Rng, sw: &Swarm, comps: &[Component]) -> SettingsDesc 
             });
         }
     }
-    if sw.defaults == 0 && sw.cycles == 0 && !sw.faults && rng.chance(1, 5) {
+    // (more often when some enum names a definition as a bare alternative)
+    let has_bare_alternative = comps.iter().flat_map(|c| c.defs.iter()).any(|(_, d)| {
+        d.get("anyOf").and_then(|a| a.as_array()).map(|a| a.iter().any(|x| x.get("$ref").is_some())).unwrap_or(false)
+    });
+    if sw.defaults == 0 && sw.cycles == 0 && !sw.faults && if has_bare_alternative { rng.chance(1, 2) } else { rng.chance(1, 5) } {
         // replace one definition by an existing type (its uses name that type);
         // not in fault runs: a replaced definition is never converted, so a poison
         // placed inside it would not fire
